@@ -296,8 +296,8 @@ pub fn spec() -> PropertySpec {
         level: "exploration",
         rule: "Each run: the real server with a revocable permit and max_conns 1-3; 0..max_conns+1 simulated clients in mixed phases (never connected, idle keep-alive, head or body partially sent, handler running, response being read slowly) that never close by themselves; the revocation is one more scheduler action whose earliest step is drawn from the tape, so it lands at every await point of the accept loop and connection tasks; connects after the stopped signal. Verdicts by quiescence (nothing runnable, nothing in flight, no timer), never by timeout. Non-trivial = at least one client; distinct = distinct schedule hash.",
         scenarios: vec![
-            Scenario { name: "c13.mixed", property: "C13", func: mixed, runs_quick: 40_000, runs_thorough: 2_000_000, doc: "mixed phases" },
-            Scenario { name: "c13.saturated", property: "C13", func: saturated, runs_quick: 20_000, runs_thorough: 1_000_000, doc: "at least max_conns clients that stay connected: every slot is held when the permit is revoked" },
+            Scenario { name: "c13.mixed", property: "C13", func: mixed, runs_quick: 400_000, runs_thorough: 10_000_000, doc: "mixed phases" },
+            Scenario { name: "c13.saturated", property: "C13", func: saturated, runs_quick: 200_000, runs_thorough: 5_000_000, doc: "at least max_conns clients that stay connected: every slot is held when the permit is revoked" },
         ],
         required_probes: vec!["probe.revoked", "probe.all_slots_held_at_quiescence", "probe.connect_after_stopped", "probe.request_served_after_revocation"],
         components: components_server(),
